@@ -70,6 +70,7 @@ macro_rules! int_harnesses {
 
         /// Non-decimal literal: exact value or -222.
         #[kani::proof]
+        #[kani::unwind(3)]
         pub fn $nondec() {
             let u: u64 = kani::any();
             kani::cover!(u as i128 == <$t>::MAX as i128);
